@@ -1,5 +1,7 @@
 \* 9 base directories (1-3 utterances), every single defect and every pair of 25 defects, every
-\* history of 12 three-pass plans (strict / fix k / strict for k = 0..3, fix a / fix b / strict, ...)
+\* history of 12 three-pass plans (strict / fix k / strict for k = 0..3, fix a / fix b / strict, ...);
+\* 5 more views of the data set (sos / eos / both, tokens_only, tokens_only + both) with the plans
+\* strict / fix 1 / strict and fix 2 / fix 0 / fix 1
 INIT Init
 NEXT Next
 CONSTANTS
@@ -7,11 +9,15 @@ CONSTANTS
   DefectSet <- DefectsThorough
   MaxDefects = 2
   Plans <- PlansThorough
+  Views <- ViewsThorough
+  ViewPlans <- ViewPlansThorough
 INVARIANT BasesAreWellFormed
 INVARIANT StrictIffWellFormed
 INVARIANT FixIffRepairable
 INVARIANT AcceptedIsWellFormed
 INVARIANT RepairIdempotent
 INVARIANT InfoIsRecount
+INVARIANT RepairCommutesWithView
+INVARIANT UndamagedUntouched
 INVARIANT Export
 CHECK_DEADLOCK FALSE
